@@ -563,6 +563,52 @@ PROPS["C10"] = dict(
     assumptions=["a META dart count large enough to exhaust memory is a resource failure outside the model"],
 )
 
+def r_core3(mode, nq, nt, ops=25, extra=()):
+    def f(tier, seed):
+        return ["--mode", mode, "--cases", str({"quick": nq, "thorough": nt}[tier]), "--ops", str(ops)] + list(extra)
+    return f
+
+
+WF3_CLASSES = {"1": "3-map ill-formed after an in-contract call", "2": "C02:non-mirrorable-faces-3-linked"}
+MAP3_TRUST = PROPS["C01"]["trusted"][:3] + [
+    "hand-written Gallina model of dim3/{links,sews,basic_ops,orbits}.rs (Map3/Ops3.v); hex grids from the translated tables"]
+PROPS["C02"] = dict(
+    level="translation_validation",
+    level_text="the 3-map calls (links with the lock-step face walks, sews, allocation, ids, orbits) are transcribed in Gallina and "
+               "compared with the implementation (random histories from free darts, edits of hexahedral grids, all pairs of "
+               "closed/open faces of 1-5 sides); the property (wf3 with the mirror clause; refusal of non-mirrorable faces) is "
+               "an executable Coq predicate applied to every implementation observation. The inductive proof of wf3 over "
+               "histories is not done (see DESIGN.md)",
+    technique="Coq model of the 3-map calls + correspondence + extracted wf3 / mirrorable oracle",
+    families=[
+        Family("core3-random", "core3", r_core3("random", 1200, 25000, 25, ["--darts", "10"]), 50, [(51, "wf3_step", WF3_CLASSES)]),
+        Family("core3-hex", "core3", r_core3("hex", 250, 4000, 15), 50, [(51, "wf3_step", WF3_CLASSES)]),
+        Family("core3-faces", "core3", r_core3("faces", 1, 1), 50, [(51, "wf3_step", WF3_CLASSES)], exhaustive=True),
+    ],
+    trusted=MAP3_TRUST,
+    assumptions=PROPS["C01"]["assumptions"],
+)
+
+SEW3_CLASSES = {"1": "topology differs from the corresponding link", "2": "untouched cell changed value",
+                "3": "merged cell does not carry the merge of the former values", "4": "split cells do not carry the split",
+                "5": "value left under an identifier that designates no cell", "6": "accepted although the update law rejects",
+                "7": "C05:unsew-refused-on-embedded-mesh"}
+PROPS["C05"] = dict(
+    level="translation_validation",
+    level_text="the 3D sews/unsews are transcribed in Gallina (Map3/Ops3.v, including the non-transactional orbit walks) and compared "
+               "with the implementation; the property is the executable Coq specification Sew3Oracle.oracle_sew3 (topology = the "
+               "link's; per cell kind, merged cells carry the merge under the new id, untouched cells keep their value, no value "
+               "under a dead id; unsew succeeds on fully embedded meshes) applied to every implementation observation, cells being "
+               "computed with the verified closure",
+    technique="Coq model of the 3D sews + correspondence + extracted sew specification oracle",
+    families=[
+        Family("core3-hex", "core3", r_core3("hex", 400, 6000, 15), 50, [(53, "sew3_spec", SEW3_CLASSES)]),
+        Family("core3-random", "core3", r_core3("random", 600, 10000, 25, ["--darts", "10"]), 50, [(53, "sew3_spec", SEW3_CLASSES)]),
+    ],
+    trusted=MAP3_TRUST,
+    assumptions=PROPS["C01"]["assumptions"],
+)
+
 ALLOC_CLASSES = {"1": "allocation id or counts wrong", "2": "appended slot not blank", "3": "C18:stale-slot-on-reuse",
                  "4": "removal wrongly accepted or refused", "5": "unrelated state changed by allocation/removal",
                  "6": "reused slot not free or still flagged"}
@@ -702,6 +748,12 @@ def verdict(pid, tier, seed, cfg, pr, tr_msgs, results, t0):
         wall_s=round(time.time() - t0, 1), violations=len(violations) + (1 if rc and not violations else 0),
     )
     json.dump(ev, open(os.path.join(V, "evidence", pid + ".json"), "w"), indent=1)
+    if ofails:
+        import collections
+        print("  oracle failure classes: %s" % dict(collections.Counter(o["cls"] for o in ofails)))
+        if os.environ.get("HC_DEBUG"):
+            for o in ofails[:int(os.environ["HC_DEBUG"])]:
+                print("   ", o["cls"], "|", o.get("case"), o.get("step"), "|", o.get("op"), "|", o.get("case_line", "")[:300])
     print("%s %s: proofs %s (%d theorems), %d observations, %d diffs, %d oracle failures, %.0fs" % (
         pid, tier, "ok" if pr["ok"] else "BROKEN", len(pr["theorems"]), evals, len(diffs), len(ofails), time.time() - t0))
     return rc
